@@ -24,7 +24,7 @@ CHECKS = {
     "C05": K("TestC05", quick=600, thorough=20000),
     "C06": K("TestC06", quick=600, thorough=20000),
     "C07": K("TestC07(K|A)", quick=250, thorough=4000, level="fault_enumeration"),
-    "C08": K("TestC08", quick=600, thorough=20000),
+    "C08": K("TestC08(K|A)", quick=400, thorough=12000),
     "C09": K("TestC09(K|D)", quick=400, thorough=10000, qenv={"VERIF_D_FACTOR": 3}, tenv={"VERIF_D_FACTOR": 5}),
     "C10": K("TestC10(K|A)", quick=200, thorough=4000, pkg="cli"),
     "C11": K("TestC11", quick=600, thorough=20000),
